@@ -691,23 +691,35 @@ func c17Jobs(quick bool) []sjob {
 func c09Jobs() []sjob {
 	e := newREnv(defaultSecrets(), "")
 	key := []byte(e.Sec.Key1)
+	key2 := []byte(e.Sec.Key2)
 	scripts := [][]rPkt{
 		{{Kind: "ascii", User: ""}, {Kind: "cont", Msg: "own"}},
 		{{Kind: "ascii", User: "viagroup"}, {Kind: "cont", Msg: "x", Abort: true}},
 		{{Kind: "author", User: "own", Args: []string{"service=shell", "cmd=show"}}},
 		{{Kind: "ascii", User: ""}, {Kind: "cont", Msg: "nobody"}},
 		{{Kind: "acct", User: "own", Flags: 2}},
+		// scripts 5 and 6 run on a connection of the OTHER scope (other key, other users)
+		{{Kind: "pap", User: "shared", Pw: e.Sec.Shared2}},
+		{{Kind: "ascii", User: ""}, {Kind: "cont", Msg: "elsewhere"}},
 	}
-	wire := func(s []rPkt) [][]byte {
+	const firstScope2 = 5
+	keyOf := func(si int) []byte {
+		if si >= firstScope2 {
+			return key2
+		}
+		return key
+	}
+	wireK := func(s []rPkt, k []byte) [][]byte {
 		var out [][]byte
 		seq := byte(1)
 		for _, p := range s {
 			typ, minor, body := p.body()
-			out = append(out, ref.Packet(ref.Header{Version: 0xc0 | minor, Type: typ, Seq: seq, Session: 0x0909}, key, body)) // same session id on every connection
+			out = append(out, ref.Packet(ref.Header{Version: 0xc0 | minor, Type: typ, Seq: seq, Session: 0x0909}, k, body)) // same session id on every connection
 			seq += 2
 		}
 		return out
 	}
+	wire := func(s []rPkt) [][]byte { return wireK(s, key) }
 	run := func(x *sx, idx []int) []string {
 		w := newSWorldR(e.Cfg, nil)
 		w.serve()
@@ -716,14 +728,18 @@ func c09Jobs() []sjob {
 		wg.Add(len(idx))
 		for i, si := range idx {
 			i, si := i, si
-			c := w.W.NewConn(i, srvx.Addr4(10, 0, 0, byte(1+i), 1900))
-			vsyncrt.Go(func() { sclient(w, c, wire(scripts[si]), &reps[i], true); wg.Done() })
+			addr := srvx.Addr4(10, 0, 0, byte(1+i), 1900)
+			if si >= firstScope2 {
+				addr = srvx.Addr4(192, 168, 0, byte(1+i), 1900)
+			}
+			c := w.W.NewConn(i, addr)
+			vsyncrt.Go(func() { sclient(w, c, wireK(scripts[si], keyOf(si)), &reps[i], true); wg.Done() })
 		}
 		wg.Wait()
 		w.shutdown()
 		var out []string
-		for i := range idx {
-			out = append(out, transcriptOf(key, reps[i]))
+		for i, si := range idx {
+			out = append(out, transcriptOf(keyOf(si), reps[i]))
 		}
 		return out
 	}
@@ -737,7 +753,14 @@ func c09Jobs() []sjob {
 	for a := range scripts {
 		for b := a; b < len(scripts); b++ {
 			a, b := a, b
-			jobs = append(jobs, sjob{fmt.Sprintf("scripts %d and %d on two concurrent connections sharing a session id", a, b), func(x *sx) {
+			if a >= firstScope2 && b > a {
+				continue // one pair of the other scope with itself is enough
+			}
+			what := "sharing a session id"
+			if b >= firstScope2 && a < firstScope2 {
+				what = "of two different scopes, sharing a session id"
+			}
+			jobs = append(jobs, sjob{fmt.Sprintf("scripts %d and %d on two concurrent connections %s", a, b, what), func(x *sx) {
 				got := run(x, []int{a, b})
 				if got[0] != alone[a] {
 					x.fail("C09/transcript-differs", fmt.Sprintf("script %d: transcript under concurrency %s differs from its transcript alone %s", a, got[0], alone[a]))
@@ -753,7 +776,7 @@ func c09Jobs() []sjob {
 	// same session id. Nothing of the dead connection may reach it.
 	pending := [][]rPkt{{{Kind: "ascii", User: ""}}, {{Kind: "ascii", User: ""}, {Kind: "cont", Msg: "own"}}, {{Kind: "ascii", User: "viagroup"}}}
 	for pi, pre := range pending {
-		for b := range scripts {
+		for b := range scripts[:firstScope2] {
 			pi, pre, b := pi, pre, b
 			jobs = append(jobs, sjob{fmt.Sprintf("abandoned login %d on a closed connection, then script %d on a new connection with the same session id", pi, b), func(x *sx) {
 				w := newSWorldR(e.Cfg, nil)
@@ -903,23 +926,68 @@ func c13SchedJobs() []sjob {
 				sc := c13Scopes[i]
 				scopes = append(scopes, ref.Scope{Name: sc.Name, Key: sc.Key, Prefixes: sc.Prefixes, Effective: sc.Users})
 			}
-			for _, a := range []net.IP{net.IPv4(10, 1, 9, 9), net.IPv4(10, 2, 0, 1), net.IPv4(10, 1, 2, 5), net.ParseIP("2001:db8::1"), net.IPv4(192, 168, 0, 7).To4()} {
-				want := ref.Admit([]string{"10.1.2.0/24"}, nil, scopes, a, true)
+			for _, a := range c13SchedAddrs {
 				secret, handler, err := ld.Get(context.Background(), &net.TCPAddr{IP: a, Port: 1313})
-				served := err == nil && secret != nil && handler != nil
-				switch {
-				case want < 0 && served:
-					x.fail("C13/served-but-must-refuse", fmt.Sprintf("address %v served with key %q", a, secret))
-				case want >= 0 && !served:
-					x.fail("C13/refused-but-must-serve", fmt.Sprintf("address %v refused: %v", a, err))
-				case want >= 0 && string(secret) != scopes[want].Key:
-					x.fail("C13/wrong-scope", fmt.Sprintf("address %v bound to key %q, the first matching scope in configuration order is %s", a, secret, scopes[want].Name))
-				}
+				c13Judge(x, scopes, a, secret, handler, err)
 			}
 			x.obs = "ok"
 		}})
+		// connections are set up concurrently: two lookups in flight at once each get their own address's verdict
+		for _, pair := range [][2]int{{0, 1}, {0, 2}, {3, 4}, {1, 3}} {
+			pair := pair
+			jobs = append(jobs, sjob{fmt.Sprintf("overlapping scopes in configuration order %v: concurrent lookups for addresses %d and %d", order, pair[0], pair[1]), func(x *sx) {
+				lg, sink := &srvx.Logger{}, &sinkRec{}
+				ctx, cancel := context.WithCancel(context.Background())
+				defer cancel()
+				feed := cfgFeed{ch: mkCfgChan(1)}
+				ld := newSLoader(ctx, lg, sink, nil, feed)
+				feed.ch.Send(mk(order))
+				ld.BlockUntilLoaded()
+				var scopes []ref.Scope
+				for _, i := range order {
+					sc := c13Scopes[i]
+					scopes = append(scopes, ref.Scope{Name: sc.Name, Key: sc.Key, Prefixes: sc.Prefixes, Effective: sc.Users})
+				}
+				type res struct {
+					secret  []byte
+					handler tq.Handler
+					err     error
+				}
+				var r [2]res
+				var wg vsyncrt.WaitGroup
+				wg.Add(2)
+				for k := 0; k < 2; k++ {
+					k := k
+					vsyncrt.Go(func() {
+						r[k].secret, r[k].handler, r[k].err = ld.Get(context.Background(), &net.TCPAddr{IP: c13SchedAddrs[pair[k]], Port: 1313})
+						wg.Done()
+					})
+				}
+				wg.Wait()
+				for k := 0; k < 2; k++ {
+					c13Judge(x, scopes, c13SchedAddrs[pair[k]], r[k].secret, r[k].handler, r[k].err)
+				}
+				x.obs = "ok"
+			}})
+		}
 	}
 	return jobs
+}
+
+var c13SchedAddrs = []net.IP{net.IPv4(10, 1, 9, 9), net.IPv4(10, 2, 0, 1), net.IPv4(10, 1, 2, 5), net.ParseIP("2001:db8::1"), net.IPv4(192, 168, 0, 7).To4()}
+
+// c13Judge compares one lookup result with the reference admission model.
+func c13Judge(x *sx, scopes []ref.Scope, a net.IP, secret []byte, handler tq.Handler, err error) {
+	want := ref.Admit([]string{"10.1.2.0/24"}, nil, scopes, a, true)
+	served := err == nil && secret != nil && handler != nil
+	switch {
+	case want < 0 && served:
+		x.fail("C13/served-but-must-refuse", fmt.Sprintf("address %v served with key %q", a, secret))
+	case want >= 0 && !served:
+		x.fail("C13/refused-but-must-serve", fmt.Sprintf("address %v refused: %v", a, err))
+	case want >= 0 && string(secret) != scopes[want].Key:
+		x.fail("C13/wrong-scope", fmt.Sprintf("address %v bound to key %q, the first matching scope in configuration order is %s", a, secret, scopes[want].Name))
+	}
 }
 
 // ---------------- explorer ----------------
